@@ -71,6 +71,14 @@ func init() {
 	RefineOmegas[100] = logHostCall
 }
 
+// hostCallLabel names a host call for logging; any identifier is accepted.
+func hostCallLabel(operation OperationType) string {
+	if operation < 0 || int(operation) >= len(hostCallName) {
+		return "unknown"
+	}
+	return hostCallName[operation]
+}
+
 func getOmega(omegas Omegas, operation OperationType) Omega {
 	if operation < 0 || int(operation) >= len(omegas) {
 		return nil
@@ -108,7 +116,9 @@ func (h *Host) HostCall(pc ProgramCounter, instrCount uint64) (psi_result Psi_H_
 
 		// reason.Reason == HOST_CALL
 		var input OmegaInput
-		input.Operation = OperationType(exitReason.GetHostCallID())
+		// the whole immediate selects the host call; identifiers outside the table
+		// (including the negative ones) have no entry and take the default below
+		input.Operation = OperationType(exitReason.HostCallIndex())
 		input.VM = &VMState{
 			Registers: &h.Interpreter.Registers,
 			Memory:    h.Interpreter.Memory,
@@ -127,7 +137,7 @@ func (h *Host) HostCall(pc ProgramCounter, instrCount uint64) (psi_result Psi_H_
 		}
 		omegaResult := omega(input)
 		pvmLogger.Debugf("%s host-call return: %d, gas : %d\nRegisters: %v\n",
-			hostCallName[input.Operation], omegaResult.ExitReason.GetReasonType(), h.Interpreter.Gas, h.Interpreter.Registers)
+			hostCallLabel(input.Operation), omegaResult.ExitReason.GetReasonType(), h.Interpreter.Gas, h.Interpreter.Registers)
 
 		switch omegaResult.ExitReason {
 		case ExitContinue:
